@@ -583,10 +583,15 @@ func (mi *muxInstance) search(req *httpprot.Request) *route {
 				continue
 			}
 
-			// The path can be put into the cache if it has no headers.
+			// The path can be put into the cache if it has no headers, and
+			// no path with headers was passed over on the way to it: such a
+			// path wins for requests with other header values, but the key
+			// of the cache does not contain the headers.
 			if len(path.headers) == 0 {
-				r = &route{code: 0, path: path}
-				mi.putRouteToCache(req, r)
+				if !headerMismatch {
+					r = &route{code: 0, path: path}
+					mi.putRouteToCache(req, r)
+				}
 			} else if !path.matchHeaders(req) {
 				headerMismatch = true
 				continue
